@@ -141,12 +141,18 @@ Definition step_ok (c : config) (self : pid) (p : proc) : Prop :=
 Definition Inv (c : config) : Prop := forall self p, procs c !! self = Some p -> step_ok c self p.
 
 (* ------------------------------------------------------------------ one SAX step between abstractions *)
-Lemma sax_one L R Δ ls C C' :
-  C ≡ₚ L ++ Δ -> C' ≡ₚ R ++ Δ -> sred_lin F Δ L ls R -> sax_steps F false C ls C'.
+(* zero or one step of the reference semantics (linear rules only) *)
+Definition sax_step01 (C : sconfig) (ls : list string) (C' : sconfig) : Prop :=
+  (ls = [] /\ C ≡ₚ C') \/ sax_step F false C ls C'.
+
+Lemma sax_step01_steps C ls C' : sax_step01 C ls C' -> sax_steps F false C ls C'.
 Proof.
-  intros HC HC' Hr. rewrite <- (app_nil_r ls). eapply sax_trans; [|by apply sax_refl].
-  exists L, R, Δ. split_and!; try done. by left.
+  intros [[-> Hp]|Hs]; [by apply sax_refl|]. rewrite <- (app_nil_r ls). eapply sax_trans; [done|by apply sax_refl].
 Qed.
+
+Lemma sax_one L R Δ ls C C' :
+  C ≡ₚ L ++ Δ -> C' ≡ₚ R ++ Δ -> sred_lin F Δ L ls R -> sax_step F false C ls C'.
+Proof. intros HC HC' Hr. exists L, R, Δ. split_and!; try done. by left. Qed.
 
 Lemma refine_send c self p k st m :
   procs c !! self = Some p -> chans c !! k = Some st -> ch_buf st = None -> proc_obj p = msg_obj k m ->
@@ -160,7 +166,7 @@ Lemma refine_recv c self p k st m p' cl L :
   procs c !! self = Some p -> chans c !! k = Some st -> ch_buf st = Some m ->
   L ≡ₚ proc_obj p ++ msg_obj k m ->
   sred_lin F (procs_objs (delete self (procs c)) ++ chans_objs (delete k (chans c))) L [] (proc_obj p') ->
-  sax_steps F false (α c) [] (α (apply_effect (put_msg c k st None) self p (Eff (Continue p') [] [] cl []))).
+  sax_step F false (α c) [] (α (apply_effect (put_msg c k st None) self p (Eff (Continue p') [] [] cl []))).
 Proof.
   intros Hp Hk Hb HL Hr. eapply sax_one; [| |exact Hr].
   - rewrite (alpha_lookup c self p Hp), (chans_objs_lookup _ k st Hk), HL. unfold chan_obj. rewrite Hb.
@@ -171,7 +177,7 @@ Qed.
 Lemma refine_internal c self p p' o :
   procs c !! self = Some p ->
   sred_lin F (procs_objs (delete self (procs c)) ++ chans_objs (chans c)) (proc_obj p) o (proc_obj p') ->
-  sax_steps F false (α c) o (α (apply_effect c self p (Eff (Continue p') [] [] [] o))).
+  sax_step F false (α c) o (α (apply_effect c self p (Eff (Continue p') [] [] [] o))).
 Proof.
   intros Hp Hr. eapply sax_one; [| |exact Hr].
   - by rewrite (alpha_lookup c self p Hp).
@@ -230,7 +236,7 @@ Lemma refine_fwd_request c self n a body next k st m e :
   self_chan (Proc [n] body next) = Some k -> is_fwd body = false ->
   (forall a', obj a' body = SProc a' body) ->
   on_message self (Proc [n] body next) m = EOk e ->
-  sax_steps F false (α c) [] (α (apply_effect (put_msg c k st None) self (Proc [n] body next) e)).
+  sax_step F false (α c) [] (α (apply_effect (put_msg c k st None) self (Proc [n] body next) e)).
 Proof.
   intros Hp Hn Hk Hb Hrule Hok Hself Hnf Hobj He.
   unfold msg_ok in Hok. rewrite Hrule in Hok. destruct Hok as (n' & Hprovs & [a' Hn']).
@@ -271,7 +277,7 @@ Lemma refine_cut c self n a x P Q next :
   let nc := mkName (ident x) false (pol x) (nty x) (Some (self ++ [next])) in
   procs c !! self = Some (Proc [n] (FNew x P Q) next) -> chan n = Some a ->
   cut_fresh c self (Proc [n] (FNew x P Q) next) ->
-  sax_steps F false (α c) []
+  sax_step F false (α c) []
     (α (apply_effect c self (Proc [n] (FNew x P Q) next)
           (Eff (Continue (set_body (Proc [n] (FNew x P Q) (S next)) (subst x nc Q))) [Spawn [nc] P] (cids_of [nc]) [] []))).
 Proof.
@@ -293,11 +299,11 @@ Proof. unfold on_message. intros H. repeat case_match; simplify_eq; done. Qed.
 
 Ltac solve_send Hstep Hp Hobj :=
   destruct Hstep as (st & Hk & Hb & ->); exists []; split;
-  [apply sax_refl; symmetry; eapply refine_send; [exact Hp|exact Hk|exact Hb|rewrite Hobj; cbn; repeat (match goal with H : _ = _ |- _ => rewrite H end); done]
+  [left; split; [done|]; symmetry; eapply refine_send; [exact Hp|exact Hk|exact Hb|rewrite Hobj; cbn; repeat (match goal with H : _ = _ |- _ => rewrite H end); done]
   |unfold labels; cbn; by rewrite app_nil_r].
 
-Theorem refines_sax c self c' : Inv c -> step Async D F c (Run self) = SStep c' ->
-  exists ls, sax_steps F false (α c) ls (α c') /\ labels c' = labels c ++ ls.
+Theorem refines_sax01 c self c' : Inv c -> step Async D F c (Run self) = SStep c' ->
+  exists ls, sax_step01 (α c) ls (α c') /\ labels c' = labels c ++ ls.
 Proof.
   intros HInv Hstep. apply step_run_async_inv in Hstep as (p & Hp & Hstep).
   destruct (HInv self p Hp) as ((n & a & Hprov & Hn) & Hlin & Hfresh & Hrecv).
@@ -325,7 +331,7 @@ Proof.
     destruct (is_self from) eqn:Hfrom.
     + destruct (Hrcv a) as (st & m & e & Hk & Hb & He & -> & Hmok & Hfwd & Hlab).
       { cbn. rewrite Hfrom. unfold recv_on. cbn. by rewrite Hn. }
-      exists []. split; [|exact Hlab]. clear Hstep Hrecv Hfresh Hrcv Hlab.
+      exists []. split; [right|exact Hlab]. clear Hstep Hrecv Hfresh Hrcv Hlab.
       destruct (m_rule m) eqn:Hrule.
       all: try (unfold on_message in He; rewrite Hrule in He; cbn in He; rewrite ?Hfrom in He; cbn in He; discriminate).
       * (* ⊸ *)
@@ -340,7 +346,7 @@ Proof.
       2:{ cbn in Hstep. rewrite Hfrom in Hstep. unfold recv_on in Hstep. by rewrite Hcf in Hstep. }
       destruct (Hrcv b) as (st & m & e & Hk & Hb & He & -> & Hmok & Hfwd & Hlab).
       { cbn. rewrite Hfrom. unfold recv_on. cbn. by rewrite Hcf. }
-      exists []. split; [|exact Hlab]. clear Hstep Hrecv Hfresh Hrcv Hlab.
+      exists []. split; [right|exact Hlab]. clear Hstep Hrecv Hfresh Hrcv Hlab.
       destruct (m_rule m) eqn:Hrule.
       all: try (unfold on_message in He; rewrite Hrule in He; cbn in He; rewrite ?Hfrom in He; cbn in He; discriminate).
       * (* ⊗ *)
@@ -359,7 +365,7 @@ Proof.
     destruct (is_self from) eqn:Hfrom.
     + destruct (Hrcv a) as (st & m & e & Hk & Hb & He & -> & Hmok & Hfwd & Hlab).
       { cbn. rewrite Hfrom. unfold recv_on. cbn. by rewrite Hn. }
-      exists []. split; [|exact Hlab]. clear Hstep Hrecv Hfresh Hrcv Hlab.
+      exists []. split; [right|exact Hlab]. clear Hstep Hrecv Hfresh Hrcv Hlab.
       destruct (m_rule m) eqn:Hrule.
       all: try (unfold on_message in He; rewrite Hrule in He; cbn in He; rewrite ?Hfrom in He; cbn in He; discriminate).
       * (* & *)
@@ -375,7 +381,7 @@ Proof.
       2:{ cbn in Hstep. rewrite Hfrom in Hstep. unfold recv_on in Hstep. by rewrite Hcf in Hstep. }
       destruct (Hrcv b) as (st & m & e & Hk & Hb & He & -> & Hmok & Hfwd & Hlab).
       { cbn. rewrite Hfrom. unfold recv_on. cbn. by rewrite Hcf. }
-      exists []. split; [|exact Hlab]. clear Hstep Hrecv Hfresh Hrcv Hlab.
+      exists []. split; [right|exact Hlab]. clear Hstep Hrecv Hfresh Hrcv Hlab.
       destruct (m_rule m) eqn:Hrule.
       all: try (unfold on_message in He; rewrite Hrule in He; cbn in He; rewrite ?Hfrom in He; cbn in He; discriminate).
       * (* ⊕ *)
@@ -388,7 +394,7 @@ Proof.
       * unfold msg_ok in Hmok. by rewrite Hrule in Hmok.
   - (* cut *)
     cbn in Hstep. destruct Hstep as (e & He & ->). simplify_eq.
-    exists []. split; [|by rewrite labels_effect]. eapply refine_cut; eauto.
+    exists []. split; [right|by rewrite labels_effect]. eapply refine_cut; eauto.
   - (* close *)
     cbn in Hstep. rewrite Hn in Hstep. destruct (is_self c0) eqn:Hto; [|done]. solve_send Hstep Hp Hobj.
   - (* wait *)
@@ -398,7 +404,7 @@ Proof.
     2:{ cbn in Hstep. rewrite Hfrom in Hstep. unfold recv_on in Hstep. by rewrite Hcf in Hstep. }
     destruct (Hrcv b) as (st & m & e & Hk & Hb & He & -> & Hmok & Hfwd & Hlab).
     { cbn. rewrite Hfrom. unfold recv_on. cbn. by rewrite Hcf. }
-    exists []. split; [|exact Hlab]. clear Hstep Hrecv Hfresh Hrcv Hlab.
+    exists []. split; [right|exact Hlab]. clear Hstep Hrecv Hfresh Hrcv Hlab.
     destruct (m_rule m) eqn:Hrule.
     all: try (unfold on_message in He; rewrite Hrule in He; cbn in He; discriminate).
     + (* 1 *)
@@ -418,7 +424,7 @@ Proof.
       destruct (chan from) as [b|] eqn:Hcf; [|done].
       destruct (Hrcv b) as (st & m & e & Hk & Hb & He & -> & Hmok & Hfwd & Hlab).
       { cbn. by rewrite Hto, Hpol, Hcf. }
-      exists []. split; [|exact Hlab]. clear Hstep Hrecv Hfresh Hrcv Hlab.
+      exists []. split; [right|exact Hlab]. clear Hstep Hrecv Hfresh Hrcv Hlab.
       destruct (m_rule m) eqn:Hrule.
       all: try (unfold on_message in He; rewrite Hrule in He; cbn in He; discriminate).
       all: try (destruct (Hfwd eq_refl) as [_ Hnf]; done).
@@ -435,7 +441,7 @@ Proof.
   - (* call *)
     cbn in Hstep. destruct Hstep as (e & He & ->).
     destruct (call_body F f args) as [b|] eqn:Hcall; [|done]. simplify_eq.
-    exists []. split; [|by rewrite labels_effect]. unfold no_eff.
+    exists []. split; [right|by rewrite labels_effect]. unfold no_eff.
     eapply refine_internal; [done|]. rewrite Hobj. unfold proc_obj, set_body. cbn. rewrite Hn.
     apply s_call. by rewrite <- call_body_unfold.
   - (* cast *)
@@ -447,7 +453,7 @@ Proof.
     destruct (is_self from) eqn:Hfrom.
     + destruct (Hrcv a) as (st & m & e & Hk & Hb & He & -> & Hmok & Hfwd & Hlab).
       { cbn. rewrite Hfrom. unfold recv_on. cbn. by rewrite Hn. }
-      exists []. split; [|exact Hlab]. clear Hstep Hrecv Hfresh Hrcv Hlab.
+      exists []. split; [right|exact Hlab]. clear Hstep Hrecv Hfresh Hrcv Hlab.
       destruct (m_rule m) eqn:Hrule.
       all: try (unfold on_message in He; rewrite Hrule in He; cbn in He; rewrite ?Hfrom in He; cbn in He; discriminate).
       * (* ↑ *)
@@ -462,7 +468,7 @@ Proof.
       2:{ cbn in Hstep. rewrite Hfrom in Hstep. unfold recv_on in Hstep. by rewrite Hcf in Hstep. }
       destruct (Hrcv b) as (st & m & e & Hk & Hb & He & -> & Hmok & Hfwd & Hlab).
       { cbn. rewrite Hfrom. unfold recv_on. cbn. by rewrite Hcf. }
-      exists []. split; [|exact Hlab]. clear Hstep Hrecv Hfresh Hrcv Hlab.
+      exists []. split; [right|exact Hlab]. clear Hstep Hrecv Hfresh Hrcv Hlab.
       destruct (m_rule m) eqn:Hrule.
       all: try (unfold on_message in He; rewrite Hrule in He; cbn in He; rewrite ?Hfrom in He; cbn in He; discriminate).
       * (* ↓ *)
@@ -475,9 +481,16 @@ Proof.
   - (* drop *) done.
   - (* print *)
     cbn in Hstep. destruct Hstep as (e & He & ->). simplify_eq.
-    exists [l]. split; [|by rewrite labels_effect].
+    exists [l]. split; [right|by rewrite labels_effect].
     eapply refine_internal; [done|]. rewrite Hobj. unfold proc_obj, set_body. cbn. rewrite Hn.
     apply s_print.
+Qed.
+
+Corollary refines_sax c self c' : Inv c -> step Async D F c (Run self) = SStep c' ->
+  exists ls, sax_steps F false (α c) ls (α c') /\ labels c' = labels c ++ ls.
+Proof.
+  intros HI Hs. destruct (refines_sax01 c self c' HI Hs) as (ls & H01 & Hl). exists ls. split; [|done].
+  by apply sax_step01_steps.
 Qed.
 End refine.
 
